@@ -192,11 +192,15 @@ class UnaryOperation(Node):
     def generate_lingo(self, indentation: int) -> str:
         operand = cast(Node, self.operand)
         operation = self.name
+        operand_code = operand.generate_lingo(indentation)
         if operation == 'minus':
             operation = '-'
+            if str(operand_code).startswith('-'):
+                # '--' starts a comment in Lingo
+                operand_code = vsprintf("(%s)", operand_code)
         else:
             operation = operation + ' '
-        return vsprintf("%s%s", operation, operand.generate_lingo(indentation))
+        return vsprintf("%s%s", operation, operand_code)
 
     def generate_js(self, indentation: int, factory_method: bool) -> str:
         operand = cast(Node, self.operand)
